@@ -8,6 +8,7 @@ import time
 from concurrent.futures import ThreadPoolExecutor
 
 import kanirun
+import residual
 import props
 import zv
 
@@ -561,9 +562,21 @@ def main(argv):
         replay_paths.append((tag, path, rec))
 
     # ---- bounded stand-in (DESIGN 16): when the deductive verdict is undecided, and always in the thorough tier ----
-    binfo, bfail = {"ran": False, "reason": "the deductive verdict is decided on this tree (quick tier)"}, []
-    if (undecided and not violations) or tier == "thorough":
-        binfo, bfail = bounded_stand_in(pid, seed, ("undecided: " + "; ".join(undecided)[:400]) if undecided else "thorough tier")
+    binfo, bfail = {"ran": False, "reason": "the deductive verdict is decided on this tree (quick tier) and no code outside the contracts changed"}, []
+    # code under no contract that differs from the committed fingerprint (DESIGN 16.5): the proof never depended on it,
+    # but the property may - its stand-in is run
+    try:
+        res_changed, res_refused = residual.changed_files(zv.REPO)
+    except Exception as e:
+        res_changed, res_refused = [], ["residual: %s" % str(e)[:200]]
+    res_mine = [f for f in res_changed if f in residual.files_of(pid)]
+    if update_baseline and not res_refused:
+        residual.update(zv.REPO)
+        res_changed, res_mine = [], []
+    if (undecided and not violations) or tier == "thorough" or (res_mine and not violations):
+        why = ("undecided: " + "; ".join(undecided)[:400]) if undecided else (("code under no contract changed in " + ", ".join(res_mine)) if res_mine else "thorough tier")
+        binfo, bfail = bounded_stand_in(pid, seed, why)
+    binfo["unverified_code_changed_in"] = res_mine
 
     # ---- evidence -------------------------------------------------------------------------------
     fns = []
